@@ -272,13 +272,13 @@ func TestC15(t *testing.T) {
 		"a table of blocking API calls (rows = call scenario x fault kind; cells = rows x positions of the legitimate conversation) of a full ouroboros.Connection "+
 			"over an in-memory pipe; the peer is a raw segment peer that plays the legitimate conversation up to a position and then injects the fault (a reply of another kind the "+
 			"state map admits / of a kind it does not admit / a surplus reply / a truncated segment then close / close / silence then close / garbage / close right after the handshake / "+
-			"close in the middle of a message). rapid draws position, the alternative message, cut point, segmentation, read-fragmentation plans of both ends, linger, who ends the "+
+			"close in the middle of a message / a flood of valid messages whose total size exceeds the state's PendingMessageByteLimit, read from the exported state map, with a slow user callback when a call is pending). rapid draws position, the alternative message, cut point, segmentation, read-fragmentation plans of both ends, linger, who ends the "+
 			"connection (peer close or local Close()), and whether the caller goes on after an error. A case is non-trivial when the fault was really injected at the planned position "+
 			"(the legitimate prefix ran without desynchronisation); two cases are distinct when their full specification differs")
 	defer rec.Finish()
 	rec.Assume(
 		"the harness drains ErrorChan() (a consumer that never reads it is outside the statement)",
-		"user callbacks given to the library return immediately (one tx-submission scenario has a Done callback that takes 3 ms)",
+		"user callbacks given to the library return immediately (one tx-submission scenario has a Done callback that takes 3 ms; in flood cases with a call pending the chain-sync / block-fetch callbacks block until 20 ms after the connection ended - a slow consumer)",
 		"a goroutine counts as started for the connection when it is not in the goroutine set taken right before the connection is created and has a gouroboros frame; the harness's own caller goroutines are judged as calls, not as leaks",
 		"goroutines that even a fault-free conversation leaves behind are reported once by the baseline phase (key no-fault) and not again per fault",
 		"bounded liveness: "+fullBound.String()+" polled, against a measured settle time of milliseconds; classes that are listed known findings are re-confirmed with "+knownBound.String()+" only")
@@ -336,6 +336,13 @@ func TestC15(t *testing.T) {
 		if !rec.Thorough() {
 			idx++
 			if idx%shards == shard {
+				if r.fault == fFlood {
+					// few rows, and only some positions can reach the byte limit: all of them
+					for _, p := range r.pos {
+						st.evalCase(genCase(r, p, 0).Example(baseSeed*7919+ri*131+(p+3)*17), viol)
+					}
+					continue
+				}
 				st.evalCase(genCase(r, -2, -1).Example(baseSeed*7919+ri*131), viol)
 			}
 			continue
@@ -377,7 +384,7 @@ func TestC15(t *testing.T) {
 		rec.SetExtra("settle_ms_p99", st.settle[n*99/100])
 		rec.SetExtra("settle_ms_max", st.settle[n-1])
 	}
-	var ign []string
+	ign := []string{}
 	for k := range st.ignoreLeak {
 		ign = append(ign, k)
 	}
